@@ -76,6 +76,9 @@ func (g *VCGen) imap(k, v types.Type) *imapInfo {
 	if !g.so.done[name] {
 		g.so.done[name] = true
 		g.so.decls = append(g.so.decls, fmt.Sprintf("(declare-datatypes ((%s 0)) (((mk!%s (%s.isnil Bool) (%s.dom (Array %s Bool)) (%s.val (Array %s %s)) (%s.len Int)))))", name, name, name, name, ks, name, ks, vs, name))
+		// wf: the value is a map the library can produce (Len is the cardinality of the key set); the datatype
+		// itself is freely generated, so facts about Len must be conditional on wf
+		g.so.decls = append(g.so.decls, fmt.Sprintf("(declare-fun %s.wf (%s) Bool)", name, name))
 		specialZero[name] = fmt.Sprintf("(mk!%s true ((as const (Array %s Bool)) false) ((as const (Array %s %s)) %s) 0)", name, ks, ks, vs, g.so.zero(v))
 		g.eng.lenFns[name] = name + ".len"
 	}
@@ -88,7 +91,7 @@ func (inf *imapInfo) empty(g *VCGen) string {
 
 func (inf *imapInfo) fact(t string) string {
 	s := inf.sort
-	return fmt.Sprintf("(and (>= (%s.len %s) 0) (forall ((k %s)) (! (=> (select (%s.dom %s) k) (> (%s.len %s) 0)) :pattern ((select (%s.dom %s) k)))))", s, t, inf.ks, s, t, s, t, s, t)
+	return fmt.Sprintf("(and (%s.wf %s) (>= (%s.len %s) 0) (forall ((k %s)) (! (=> (select (%s.dom %s) k) (> (%s.len %s) 0)) :pattern ((select (%s.dom %s) k)))))", s, t, s, t, inf.ks, s, t, s, t, s, t)
 }
 
 type ilistInfo struct {
@@ -255,7 +258,30 @@ func pureExtern(desc string, nonNilResults bool) *intrinsicDef {
 	}}
 }
 
+// pureFn: external function that is a pure, deterministic function of its (scalar) arguments.
+func pureFn(name string) *intrinsicDef {
+	return &intrinsicDef{name: name + " is a pure deterministic function of its arguments", heaps: noHeaps, apply: func(g *VCGen, c *ssa.CallCommon, pos token.Pos, v *ssa.Call) []SpecVal {
+		var sorts, terms []string
+		for _, a := range c.Args {
+			av := g.val(a)
+			sorts = append(sorts, av.Sort)
+			terms = append(terms, av.T)
+		}
+		rt := c.Signature().Results().At(0).Type()
+		rs := g.so.sortOf(rt)
+		fn := "ext." + smtSym(name)
+		if !g.so.done[fn] {
+			g.so.done[fn] = true
+			g.specDecls = append(g.specDecls, fmt.Sprintf("(declare-fun %s (%s) %s)", fn, strings.Join(sorts, " "), rs))
+		}
+		return []SpecVal{g.define(v, fmt.Sprintf("(%s %s)", fn, strings.Join(terms, " ")))}
+	}}
+}
+
 var simpleIntrinsics = map[string]*intrinsicDef{
+	"github.com/segmentio/fasthash/fnv1a.HashUint32":   pureFn("fnv1a.HashUint32"),
+	"github.com/segmentio/fasthash/fnv1a.HashString32": pureFn("fnv1a.HashString32"),
+	"github.com/segmentio/fasthash/fnv1a.AddUint32":    pureFn("fnv1a.AddUint32"),
 	"fmt.Errorf":   pureExtern("fmt.Errorf returns a fresh non-nil error and has no effect on tracked state", true),
 	"fmt.Sprintf":  pureExtern("fmt.Sprintf has no effect on tracked state", false),
 	"fmt.Sprint":   pureExtern("fmt.Sprint has no effect on tracked state", false),
@@ -647,7 +673,7 @@ func immMethod(tn, method string, ta *types.TypeList) *intrinsicDef {
 // intrinsicSpec: spec-level accessors for library models.
 func (g *VCGen) intrinsicSpec(env *SpecEnv, x ECall) (SpecVal, bool) {
 	switch x.Fn {
-	case "dom", "isnil", "get", "imhas", "seen", "itn", "itmap", "built", "litidx", "litlist", "at":
+	case "dom", "isnil", "get", "imhas", "seen", "itn", "itmap", "built", "litidx", "litlist", "at", "wfmap":
 	default:
 		return SpecVal{}, false
 	}
@@ -664,6 +690,8 @@ func (g *VCGen) intrinsicSpec(env *SpecEnv, x ECall) (SpecVal, bool) {
 			return SpecVal{fmt.Sprintf("(%s.dom %s)", v.Sort, v.T), "(Array " + ks + " Bool)", nil}, true
 		case "isnil":
 			return SpecVal{fmt.Sprintf("(%s.isnil %s)", v.Sort, v.T), "Bool", nil}, true
+		case "wfmap":
+			return SpecVal{fmt.Sprintf("(%s.wf %s)", v.Sort, v.T), "Bool", nil}, true
 		case "get":
 			k := env.tr(x.Args[1])
 			vs := minf.vs
